@@ -136,6 +136,9 @@ class Average(Factory, Container):
             q = self.quantity(datum)
             if not isinstance(q, numbers.Real):
                 raise TypeError(f"function return value ({q}) must be boolean or number")
+            # accumulate in double precision whatever the type of the value (a narrow numpy integer would wrap around,
+            # a numpy.timedelta64 only looks like a number and fails here)
+            q = float(q)
 
             # no possibility of exception from here on out (for rollback)
             if self.entries == 0.0:
